@@ -37,10 +37,10 @@ VEHICLES == {"rec-nontail", "rec-tail", "rec-mutual", "rec-funcall", "rec-apply"
              "sleep-long", "deep-form-eval", "deep-quasiquote"}
 ENTRIES  == {"top", "function", "lambda-funcall", "handler-body", "handler", "ignore-errors", "macro-expansion",
              "load-string", "let-value", "argument", "apply-callback"}
-SHAPES   == {"cyc-vec", "cyc-vec-wide", "cyc-map", "cyc-map-2keys", "cyc-mutual", "cyc-nested", "cyc-in-list", "cyc-tagged", "cyc-tagged-vec", "deep-vec", "deep-list", "dag"}
+SHAPES   == {"cyc-vec", "cyc-vec-wide", "cyc-map", "cyc-map-2keys", "cyc-mutual", "cyc-nested", "cyc-in-list", "cyc-tagged", "cyc-tagged-vec", "deep-vec", "deep-list", "dag", "cyc-rings"}
 SINKS    == {"format-string", "to-string", "debug-print", "equal-self", "equal-copy", "json-dump-string", "json-dump-bytes",
              "json-dump-message", "path-get", "path-set", "path-del", "error-data", "map-key", "sort", "append-again",
-             "string-concat", "schema-validate", "macro-argument", "macro-result", "macroexpand", "eval-form", "quasiquote-splice", "concat", "reverse"}
+             "string-concat", "schema-validate", "macro-argument", "macro-result", "macroexpand", "eval-form", "quasiquote-splice", "concat", "reverse", "equal-pair"}
 \* entries at which a sink recipe is placed (the walk is the same Go code wherever it is called from; three suffice)
 SINKENTRIES == {"top", "handler", "macro-expansion"}
 
